@@ -1,0 +1,14 @@
+//go:build verif
+
+package smtp
+
+// VerifPoint, when set, is called at the named points of the code where the
+// external verification harness needs to observe or order a step that the
+// public API does not expose. Compiled only with -tags verif.
+var VerifPoint func(name string)
+
+func verifPoint(name string) {
+	if VerifPoint != nil {
+		VerifPoint(name)
+	}
+}
